@@ -30,9 +30,9 @@ META = dict(
          "on the real objects with a snapshot after every call (order statuses, store.orders.get_active_orders / "
          "count_active_orders, to_execute, trade.orders of closed and open trades, balances, position, margin tables); "
          "TLC decides each step from the logged pre-state. Bounded; object-level sessions, not whole backtests.",
-    note="Trusted: TLC, the encoder, the object-level session. In-vivo backtests are not part of this check: the "
-         "simulator's own duplicate calls (doubled candidate entry, flushed cancelled market orders) are reproduced "
-         "as environment operations on the same objects.",
+    note="Trusted: TLC, the encoder, the object-level session, the setattr wrappers of the in-vivo recorder. Duplicate "
+         "and late calls are injected at object level; the real backtests contribute every order call the simulators "
+         "and the Strategy class make themselves (few of them are duplicates).",
     design_ref="4/C05")
 
 
@@ -62,7 +62,7 @@ def run(ctx):
         "object-level sessions (real Order / OrdersState / ClosedTrades / Sandbox objects); market orders are created "
         "through the Sandbox driver (so they sit in store.orders.to_execute) and flushed by execute_pending_market_orders",
         "the simulator's duplicate calls are modelled as environment operations (execute/cancel on a final order, flush "
-        "after cancel-all); whole backtests are not run by this check"]
+        "after cancel-all); real backtests (policy strategies on lattice candles, cross margin) add their own order calls"]
     samples = []
     invs = {"futures": ["ActiveReported", "ExecutedInExactlyOneTrade", "ReservedBag", "FlatHasNoEntry"],
             "spot": ["ActiveReported", "ExecutedInExactlyOneTrade", "NonNegative", "SumsAreActiveSells"]}
@@ -83,7 +83,7 @@ def run(ctx):
             if r.coverage.get(a, (0, 0))[1] == 0:
                 raise Machinery("vacuity: action %s never taken in %s" % (a, label))
     # ---------------------------------------------------------------- R + T per kind
-    total = bad_total = n_r = n_t = 0
+    total = bad_total = n_r = n_t = n_v = n_vev = 0
     kinds = {}
     for kind in ("futures", "spot"):
         traces, hists, tid = [], {}, 0
@@ -104,6 +104,12 @@ def run(ctx):
         ttr = acct.random_histories(kind, specs)
         n_t += len(ttr)
         traces += ttr
+        from ..drivers import acct_vivo
+        vtr = acct_vivo.run_many(acct_vivo.specs(kind, ctx.pick(5, 100), ctx.seed + 1, first_id=tid + len(ttr) + 1))
+        n_v += len(vtr)
+        n_vev += sum(len(t["ev"]) for t in vtr)
+        traces += vtr
+        ctx.log("V %s: %d backtests, %d order events" % (kind, len(vtr), sum(len(t["ev"]) for t in vtr)))
         verdicts, results, _ = acct.validate(kind, traces, ctx.sub("v-" + kind), parts_total=ctx.pick(8, 14), proj="life")
         # deviations named after a quirk of Spot.tla are account matters (C04); the lifecycle clauses are what is judged here
         bad, _ = acct.report(ctx, PID, kind, traces, verdicts, "life", "R/T", report_known=False,
@@ -131,10 +137,13 @@ def run(ctx):
     ctx.evaluations = total
     ctx.coverage.update({
         "traces_validated_against_impl": total, "transitions_replayed": n_r, "random_histories": n_t,
+        "in_vivo_backtests": n_v, "in_vivo_order_events": n_vev,
         "rejected_traces": bad_total, "fill_effects_and_special_cases_seen": kinds, "samples": samples,
         "rule": "R: one trace per transition of the Dups instances of Futures.tla / Spot.tla (shortest witness, last call "
                 "judged from the logged pre-state). T: random histories of 30-60 operations with 30% duplicate / late "
-                "calls, cancel-all and pruning. A case counts when it contains a call on a final order, a cancel-all or "
+                "calls, cancel-all and pruning. V: real research.backtest runs (both simulators, spot and futures): every "
+                "Order.__init__/execute/cancel the simulator and the Strategy class make, judged from the state observed "
+                "before the call. A case counts when it contains a call on a final order, a cancel-all or "
                 "a prune; distinct by (account type, fee, full operation list).",
     })
 
@@ -149,8 +158,12 @@ def replay(ctx, rp):
         if r.violation:
             ctx.violation("%s model %s %s" % (PID, kind, r.violation["name"]), r.violation["trace"][:3000], p)
         return
-    tr = acct.run_history(kind, p["hdr"], p["ops"])
-    tr["id"] = 1
+    if p.get("vivo"):
+        from ..drivers import acct_vivo
+        tr = acct_vivo.run_one(tuple([1] + list(p["vivo"])))
+    else:
+        tr = acct.run_history(kind, p["hdr"], p["ops"])
+        tr["id"] = 1
     verdicts, _, _ = acct.validate(kind, [tr], ctx.scratch, parts_total=1, proj="life")
     print("replay verdict:", verdicts[1])
     acct.report(ctx, PID, kind, [tr], verdicts, "life", "replay", report_known=False)
